@@ -29,12 +29,14 @@ import (
 	"fmt"
 	"io"
 	"math"
+	"regexp"
 	"sort"
 	"sync/atomic"
 
 	"github.com/VictoriaMetrics/VictoriaMetrics/lib/bytesutil"
 	"github.com/VictoriaMetrics/VictoriaMetrics/lib/encoding"
 	"github.com/openGemini/openGemini/engine/index/mergeindex"
+	"github.com/openGemini/openGemini/lib/config"
 	"github.com/openGemini/openGemini/lib/errno"
 	"github.com/openGemini/openGemini/lib/logger"
 	"github.com/openGemini/openGemini/lib/util/lifted/influx/index"
@@ -55,6 +57,18 @@ type indexSearch struct {
 
 	deleted *uint64set.Set
 	tfs     []tagFilter
+
+	// set for PromQL / remote-read searches: label matchers are fully anchored there
+	promRegex bool
+}
+
+// regexFilterValue returns the pattern a regexp tag filter is built from: the regexp as
+// written for InfluxQL (searched anywhere in the value), ^(?:regexp)$ for PromQL.
+func (is *indexSearch) regexFilterValue(re *regexp.Regexp) []byte {
+	if is.promRegex {
+		return []byte("^(?:" + re.String() + ")$")
+	}
+	return []byte(re.String())
 }
 
 func (is *indexSearch) setDeleted(set *uint64set.Set) {
@@ -316,7 +330,7 @@ func (is *indexSearch) initTagFilter(name []byte, expr influxql.Expr, i int) err
 	case *influxql.StringLiteral:
 		err = tf.Init(name, []byte(key.Val), []byte(value.Val), n.Op != influxql.EQ, false)
 	case *influxql.RegexLiteral:
-		err = tf.Init(name, []byte(key.Val), []byte(value.Val.String()), n.Op != influxql.EQREGEX, true)
+		err = tf.Init(name, []byte(key.Val), is.regexFilterValue(value.Val), n.Op != influxql.EQREGEX, true)
 		matchAll := value.Val.MatchString("")
 		if matchAll {
 			tf.SetRegexMatchAll(true)
@@ -968,7 +982,7 @@ func (is *indexSearch) searchTSIDsByBinaryExpr(name []byte, n *influxql.BinaryEx
 			return nil, err
 		}
 	case *influxql.RegexLiteral:
-		err := tf.Init(name, []byte(key.Val), []byte(value.Val.String()), n.Op == influxql.NEQREGEX, true)
+		err := tf.Init(name, []byte(key.Val), is.regexFilterValue(value.Val), n.Op == influxql.NEQREGEX, true)
 		if err != nil {
 			return nil, err
 		}
@@ -1056,7 +1070,7 @@ func (is *indexSearch) seriesByBinaryExpr(name []byte, n *influxql.BinaryExpr, t
 	case *influxql.StringLiteral:
 		err = tf.Init(name, []byte(key.Val), []byte(value.Val), n.Op != influxql.EQ, false)
 	case *influxql.RegexLiteral:
-		err = tf.Init(name, []byte(key.Val), []byte(value.Val.String()), n.Op != influxql.EQREGEX, true)
+		err = tf.Init(name, []byte(key.Val), is.regexFilterValue(value.Val), n.Op != influxql.EQREGEX, true)
 		matchAll := value.Val.MatchString("")
 		if matchAll {
 			tf.SetRegexMatchAll(true)
@@ -1241,48 +1255,79 @@ func (is *indexSearch) getTSIDsByTagFilterNoRegex(tf *tagFilter) (*uint64set.Set
 }
 
 func (is *indexSearch) getTSIDsByTagFilterWithRegex(tf *tagFilter) (*uint64set.Set, int64, error) {
-	if !tf.isNegative {
-		if tf.isAllMatch {
-			tsids, err := is.getTSIDsByMeasurementName(tf.name)
-			if err != nil {
-				return nil, math.MaxInt64, err
-			}
-			return tsids, int64(tsids.Len()), nil
-		}
+	isNegative := tf.isNegative
+	tf.isNegative = false
 
+	if !tf.isAllMatch {
+		// The regexp does not match the empty string: only series having the tag can match.
 		m, err := is.searchTSIDsByTagFilter(tf)
 		if err != nil {
 			return nil, math.MaxInt64, err
 		}
+		if !isNegative {
+			return m, int64(m.Len()), nil
+		}
 
-		return m, int64(m.Len()), nil
-
+		tsids, err := is.getTSIDsByMeasurementName(tf.name)
+		if err != nil {
+			return nil, math.MaxInt64, err
+		}
+		cost := int64(m.Len() + tsids.Len())
+		tsids, err = is.subTSIDSWithTagArray(tsids, m)
+		if err != nil {
+			return nil, math.MaxInt64, err
+		}
+		return tsids, cost, nil
 	}
 
-	// eg, select * from mst where tagkey1 !~ /.*/
-	// eg, show series from mst where tagkey1 !~ /.*/
-	// eg, show tag values with key="tagkey1" where tagkey2 !~ /.*/
-	if tf.isAllMatch {
-		return nil, 0, nil
+	// The regexp matches the empty string, so it matches the series without the tag too
+	// (eg, tagkey1 =~ /.*/, tagkey1 =~ /^$/, tagkey1 !~ /^(a|)$/). The series it does not
+	// match are exactly those having the tag with a value it does not match.
+	nonMatching, err := is.searchTSIDsNotMatchingRegex(tf)
+	if err != nil {
+		return nil, math.MaxInt64, err
+	}
+	if isNegative {
+		return nonMatching, int64(nonMatching.Len()), nil
 	}
 
 	tsids, err := is.getTSIDsByMeasurementName(tf.name)
 	if err != nil {
-		return nil, int64(tsids.Len()), err
-	}
-
-	tf.isNegative = false
-	m, err := is.searchTSIDsByTagFilter(tf)
-	if err != nil {
 		return nil, math.MaxInt64, err
 	}
-
-	cost := int64(m.Len() + tsids.Len())
-	tsids, err = is.subTSIDSWithTagArray(tsids, m)
+	cost := int64(nonMatching.Len() + tsids.Len())
+	tsids, err = is.subTSIDSWithTagArray(tsids, nonMatching)
 	if err != nil {
 		return nil, math.MaxInt64, err
 	}
 	return tsids, cost, nil
+}
+
+// searchTSIDsNotMatchingRegex returns the series that have the tag of tf with a value
+// the regexp of tf does not match.
+func (is *indexSearch) searchTSIDsNotMatchingRegex(tf *tagFilter) (*uint64set.Set, error) {
+	if tf.matchesAny {
+		return &uint64set.Set{}, nil
+	}
+	if tf.reSuffixMatch == nil || config.GetStoreConfig().EnablePerlRegrep {
+		// not prepared by InfluxRegrep: keep the previous behaviour, a regexp matching
+		// the empty string is taken to match every value
+		return &uint64set.Set{}, nil
+	}
+	inverted := tagFilter{
+		key:           tf.key,
+		value:         tf.value,
+		name:          tf.name,
+		isRegexp:      true,
+		reSuffixMatch: func(b []byte) bool { return !tf.reSuffixMatch(b) },
+	}
+	// all the values of the tag have to be looked at
+	compositeKey := kbPool.Get()
+	compositeKey.B = marshalCompositeTagKey(compositeKey.B[:0], tf.name, tf.key)
+	inverted.prefix = append(inverted.prefix, nsPrefixTagToTSIDs)
+	inverted.prefix = marshalTagValue(inverted.prefix, compositeKey.B)
+	kbPool.Put(compositeKey)
+	return is.scanTSIDsForTagFilter(&inverted)
 }
 
 func (is *indexSearch) getTSIDsByMeasurementName(name []byte) (*uint64set.Set, error) {
